@@ -10,25 +10,26 @@ P = dict(
          'a byte behind the given buffer length, random incl. zero and high-bit bytes), optional re-set (other buffer size), equals() 1-3 times in both directions (alternating, or all calls of one direction first), directly or through copies of the value objects], '
          'value objects primed with an earlier value of another type; the same scenario through expectOneCall(...).withParameter / withStringParameter / withMemoryBufferParameter, '
          '0-2 rewrites, actualCall inside a fixture (pass/fail judged); '
+         'one value object set several times: 1-4 earlier set calls (double with one of 8 explicit tolerances, double without, the six integer types, bool, string, pointer, memory buffer, object) then a final set (double without tolerance | double with tolerance | integer): the object must equal a fresh object that got only the final set in type, text, tolerance (default 0.005 when none is given), value, and in equals() against probes at 0.5x / 1.5x of every tolerance of the table and against the six integer types at value-1..value+1; '
          'the four lattice sections are enumerated completely. Non-trivial = integer pair/getter value outside int range or straddling a sign boundary, double pair with inf/NaN or within 2x tolerance, cross-type pair of different kinds or memory buffers, by-reference history with a comparison after a rewrite or with shared/overlapping storage; '
          'distinct by (types, values)',
     floor=dict(quick=5000, thorough=50000),
     counter_floor=dict(
-        quick=dict(byref_comparisons_string_storage_rewritten_to_another_length=3000, byref_comparisons_content_equal_after_rewrite_to_another_length=1000,
+        quick=dict(reuse_double_probes_equal_after_an_earlier_explicit_tolerance=3000, reuse_double_probes_unequal_after_an_earlier_explicit_tolerance=3000, reuse_int_probes=8000, byref_comparisons_string_storage_rewritten_to_another_length=3000, byref_comparisons_content_equal_after_rewrite_to_another_length=1000,
                    byref_comparisons_content_differs_after_rewrite_to_another_length=2000, byref_comparisons_string_one_side_a_proper_prefix_of_the_other=1200,
                    byref_comparisons_string_fresh_storage=700, byref_comparisons_memory_storage_rewritten_with_other_content_of_the_same_length=2000,
                    byref_comparisons_memory_same_length_with_zero_bytes=1500, byref_comparisons_shared_storage=1500, byref_comparisons_overlapping_storage=1500,
                    byref_comparisons_repeated_on_the_same_pair=6000, byref_comparisons_with_consecutive_calls_in_one_direction=6000, byref_comparisons_through_copied_value_objects=1500,
                    mock_byref_calls_content_equal=400, mock_byref_calls_content_differs=700, mock_byref_calls_content_equal_after_rewrite_to_another_length=100,
                    mock_byref_calls_content_differs_after_rewrite_to_another_length=200),
-        thorough=dict(byref_comparisons_string_storage_rewritten_to_another_length=200000, byref_comparisons_content_equal_after_rewrite_to_another_length=60000,
+        thorough=dict(reuse_double_probes_equal_after_an_earlier_explicit_tolerance=150000, reuse_double_probes_unequal_after_an_earlier_explicit_tolerance=150000, reuse_int_probes=400000, byref_comparisons_string_storage_rewritten_to_another_length=200000, byref_comparisons_content_equal_after_rewrite_to_another_length=60000,
                       byref_comparisons_content_differs_after_rewrite_to_another_length=130000, byref_comparisons_string_one_side_a_proper_prefix_of_the_other=70000,
                       byref_comparisons_string_fresh_storage=40000, byref_comparisons_memory_storage_rewritten_with_other_content_of_the_same_length=130000,
                       byref_comparisons_memory_same_length_with_zero_bytes=90000, byref_comparisons_shared_storage=100000, byref_comparisons_overlapping_storage=100000,
                       byref_comparisons_repeated_on_the_same_pair=340000, byref_comparisons_with_consecutive_calls_in_one_direction=340000, byref_comparisons_through_copied_value_objects=100000,
                       mock_byref_calls_content_equal=10000, mock_byref_calls_content_differs=20000, mock_byref_calls_content_equal_after_rewrite_to_another_length=3000,
                       mock_byref_calls_content_differs_after_rewrite_to_another_length=6000)),
-    assumptions=['LP64 (long = 64 bit)', 'NULL C strings in values are not judged', 'negative double tolerances are not judged',
+    assumptions=['LP64 (long = 64 bit)', 'NULL C strings in values are not judged', 'negative double tolerances are not judged', 'the value a re-used object denotes is the one of its last set call; setValue(double) without a tolerance means the default tolerance (MockNamedValue::defaultDoubleTolerance)',
                  'a string / memory-buffer value holds the caller\'s pointer: "content" is what the storage holds when equals() runs (or, through the mock, when the actual parameter is passed); '
                  'the storage stays alive and NUL-terminated within its capacity for the whole history',
                  'through the mock only pass / fail of the test is judged, not the failure text'],
